@@ -497,7 +497,16 @@ func (p *renderState) renderExpression(expr ast.Expression, wrap bool, dot bool)
 			result += ops[expr.Operator] + ` ` + p.renderExpression(expr.Operand, false, true)
 		}
 		if wrap {
-			result = `{{ ` + result + ` -}}`
+			if expr.Operator == token.INCREMENT || expr.Operator == token.DECREMENT {
+				// a statement: nothing to print, white space after it is trimmed
+				result = `{{ ` + result + ` -}}`
+			} else {
+				// a value (!x, -x, ...): printed like every other buffered expression
+				if !p.rawmode {
+					result += ` | __pug__html`
+				}
+				result = `{{` + result + `}}`
+			}
 		} else {
 			result = `(` + result + `)`
 		}
